@@ -7,6 +7,7 @@ every recorded call of a modelled function replayed in the Lean model (same (sta
 every registered (model, culture) pair over Specs inputs, generated expressions and noise, evaluated in Python
 and by the Lean definition `RTV.Preprocess.spanOK`.  Shares lib/spancorr.py with C12."""
 from lib import spancorr
+from lib import dtextractcorr
 
 PROP = 'C01'
 LEVEL = 'proof'
@@ -37,3 +38,4 @@ def correspond(ctx):
         spancorr.preprocess_unit(ctx, PROP)
     tasks = spancorr.pipeline(ctx, PROP)
     spancorr.unit_level(ctx, PROP, tasks)
+    dtextractcorr.run(ctx, PROP, tasks)
